@@ -157,6 +157,16 @@ CLAIMS = {
              "as in C06. Partial: that the inner solver is a correct monotone oracle is C01/C02; which terms are background is "
              "not mirrored.",
         design_ref="5 C07"),
+    "C10": dict(
+        technique="Lean 4 proof (resolution proof checker sound) applied to every printed proof, leaves matched against the traced run whose theory clauses the Lean kernels certify",
+        text="Theorem checkRefutation_sound: a printed proof in which every referenced name is bound, every step resolves on a "
+             "pivot occurring with opposite signs and the final clause is empty refutes its leaves. Tie: every (get-proof) "
+             "output of generated histories is parsed and replayed by the Lean checker; every leaf must be an input clause of "
+             "a currently active level (with its guard), the activation of an active level, or a theory clause of the traced "
+             "run, and the whole trace must be accepted by the Lean machine (kernel-certified theory clauses, inputs entailed "
+             "by their roots). Partial: the printed format does not distinguish the clause (or a b) from the unit clause with "
+             "literal (or a b); the trace disambiguates.",
+        design_ref="5 C10"),
 }
 
 PENDING = "not yet built in this round; design in DESIGN.md section 5, construction order in section 10"
